@@ -1,0 +1,482 @@
+//! Facade for out-of-tree runtime monitors (cargo feature `verif`, off by default).
+//!
+//! Thin `pub` wrappers over `pub(crate)` items of this crate, without logic of their own, so that a
+//! harness outside the crate can run the real noise / frame / preface / mux / rpc / handshake / pool /
+//! address-book / fetch-queue code over transports and inputs of its choosing.
+#![allow(missing_docs, clippy::missing_docs_in_private_items)]
+use std::{
+    collections::{BTreeMap, HashSet},
+    pin::Pin,
+    sync::Arc,
+    task::{Context, Poll},
+};
+
+use zksync_concurrency::{ctx, io, limiter, net, sync};
+use zksync_consensus_crypto::ByteFmt;
+use zksync_consensus_engine::BlockStoreState;
+use zksync_consensus_roles::{node, validator};
+use zksync_protobuf::ProtoFmt;
+
+use crate::{consensus, frame, gossip, metrics::MeteredStream, mux, noise, pool, preface, rpc};
+
+// ------------------------------------------------------------------------------------------------
+// noise + frame
+
+/// Encrypted stream over an arbitrary transport.
+pub struct NoiseStream<S>(noise::Stream<S>);
+
+impl<S: io::AsyncRead + io::AsyncWrite + Unpin> NoiseStream<S> {
+    pub async fn client(ctx: &ctx::Ctx, transport: S) -> ctx::Result<Self> {
+        Ok(Self(noise::Stream::client_handshake(ctx, transport).await?))
+    }
+    pub async fn server(ctx: &ctx::Ctx, transport: S) -> ctx::Result<Self> {
+        Ok(Self(noise::Stream::server_handshake(ctx, transport).await?))
+    }
+    /// Session identifier (handshake hash).
+    pub fn id(&self) -> Vec<u8> {
+        self.0.id().encode()
+    }
+}
+
+impl<S: io::AsyncRead + io::AsyncWrite + Unpin> io::AsyncRead for NoiseStream<S> {
+    fn poll_read(mut self: Pin<&mut Self>, cx: &mut Context<'_>, buf: &mut io::ReadBuf<'_>) -> Poll<io::Result<()>> {
+        Pin::new(&mut self.0).poll_read(cx, buf)
+    }
+}
+
+impl<S: io::AsyncRead + io::AsyncWrite + Unpin> io::AsyncWrite for NoiseStream<S> {
+    fn poll_write(mut self: Pin<&mut Self>, cx: &mut Context<'_>, buf: &[u8]) -> Poll<io::Result<usize>> {
+        Pin::new(&mut self.0).poll_write(cx, buf)
+    }
+    fn poll_flush(mut self: Pin<&mut Self>, cx: &mut Context<'_>) -> Poll<io::Result<()>> {
+        Pin::new(&mut self.0).poll_flush(cx)
+    }
+    fn poll_shutdown(mut self: Pin<&mut Self>, cx: &mut Context<'_>) -> Poll<io::Result<()>> {
+        Pin::new(&mut self.0).poll_shutdown(cx)
+    }
+}
+
+pub async fn recv_proto<T: ProtoFmt, S: io::AsyncRead + Unpin>(ctx: &ctx::Ctx, stream: &mut S, max_size: usize) -> ctx::Result<T> {
+    frame::recv_proto(ctx, stream, max_size).await
+}
+
+pub async fn send_proto<T: ProtoFmt, S: io::AsyncWrite + Unpin>(ctx: &ctx::Ctx, stream: &mut S, msg: &T) -> ctx::Result<()> {
+    frame::send_proto(ctx, stream, msg).await
+}
+
+// ------------------------------------------------------------------------------------------------
+// tcp + preface + handshakes
+
+/// A (metered) TCP connection.
+pub struct Tcp(MeteredStream);
+
+pub async fn tcp_connect(ctx: &ctx::Ctx, addr: std::net::SocketAddr) -> ctx::Result<Tcp> {
+    Ok(Tcp(MeteredStream::connect(ctx, addr).await?))
+}
+
+pub async fn tcp_accept(ctx: &ctx::Ctx, listener: &mut net::tcp::Listener) -> ctx::Result<Tcp> {
+    Ok(Tcp(MeteredStream::accept(ctx, listener).await?))
+}
+
+/// Noise session over TCP, as used by the handshakes.
+pub struct TcpNoise(noise::Stream);
+
+impl TcpNoise {
+    pub async fn client(ctx: &ctx::Ctx, tcp: Tcp) -> ctx::Result<Self> {
+        Ok(Self(noise::Stream::client_handshake(ctx, tcp.0).await?))
+    }
+    pub async fn server(ctx: &ctx::Ctx, tcp: Tcp) -> ctx::Result<Self> {
+        Ok(Self(noise::Stream::server_handshake(ctx, tcp.0).await?))
+    }
+    pub fn id(&self) -> Vec<u8> {
+        self.0.id().encode()
+    }
+}
+
+impl io::AsyncRead for TcpNoise {
+    fn poll_read(mut self: Pin<&mut Self>, cx: &mut Context<'_>, buf: &mut io::ReadBuf<'_>) -> Poll<io::Result<()>> {
+        Pin::new(&mut self.0).poll_read(cx, buf)
+    }
+}
+
+impl io::AsyncWrite for TcpNoise {
+    fn poll_write(mut self: Pin<&mut Self>, cx: &mut Context<'_>, buf: &[u8]) -> Poll<io::Result<usize>> {
+        Pin::new(&mut self.0).poll_write(cx, buf)
+    }
+    fn poll_flush(mut self: Pin<&mut Self>, cx: &mut Context<'_>) -> Poll<io::Result<()>> {
+        Pin::new(&mut self.0).poll_flush(cx)
+    }
+    fn poll_shutdown(mut self: Pin<&mut Self>, cx: &mut Context<'_>) -> Poll<io::Result<()>> {
+        Pin::new(&mut self.0).poll_shutdown(cx)
+    }
+}
+
+#[derive(Debug, Clone, Copy, PartialEq, Eq)]
+pub enum Endpoint {
+    ConsensusNet,
+    GossipNet,
+}
+
+pub async fn preface_connect(ctx: &ctx::Ctx, addr: std::net::SocketAddr, endpoint: Endpoint) -> ctx::Result<TcpNoise> {
+    let e = match endpoint {
+        Endpoint::ConsensusNet => preface::Endpoint::ConsensusNet,
+        Endpoint::GossipNet => preface::Endpoint::GossipNet,
+    };
+    Ok(TcpNoise(preface::connect(ctx, addr, e).await?))
+}
+
+pub async fn preface_accept(ctx: &ctx::Ctx, tcp: Tcp) -> ctx::Result<(TcpNoise, Endpoint)> {
+    let (s, e) = preface::accept(ctx, tcp.0).await?;
+    Ok((
+        TcpNoise(s),
+        match e {
+            preface::Endpoint::ConsensusNet => Endpoint::ConsensusNet,
+            preface::Endpoint::GossipNet => Endpoint::GossipNet,
+        },
+    ))
+}
+
+pub async fn gossip_handshake_inbound(ctx: &ctx::Ctx, cfg: &crate::Config, genesis: validator::GenesisHash, stream: &mut TcpNoise) -> Result<node::PublicKey, String> {
+    gossip::verif_handshake_inbound(ctx, cfg, genesis, &mut stream.0).await
+}
+
+pub async fn gossip_handshake_outbound(ctx: &ctx::Ctx, cfg: &crate::Config, genesis: validator::GenesisHash, stream: &mut TcpNoise, peer: &node::PublicKey) -> Result<node::PublicKey, String> {
+    gossip::verif_handshake_outbound(ctx, cfg, genesis, &mut stream.0, peer).await
+}
+
+pub async fn consensus_handshake_inbound(ctx: &ctx::Ctx, me: &validator::SecretKey, genesis: validator::GenesisHash, stream: &mut TcpNoise) -> Result<validator::PublicKey, String> {
+    consensus::verif_handshake_inbound(ctx, me, genesis, &mut stream.0).await
+}
+
+pub async fn consensus_handshake_outbound(ctx: &ctx::Ctx, me: &validator::SecretKey, genesis: validator::GenesisHash, stream: &mut TcpNoise, peer: &validator::PublicKey) -> Result<(), String> {
+    consensus::verif_handshake_outbound(ctx, me, genesis, &mut stream.0, peer).await
+}
+
+/// Encoded gossip handshake message (for adversarial peers written in the harness).
+pub fn encode_gossip_handshake(session_id: node::Signed<node::SessionId>, genesis: validator::GenesisHash, is_static: bool) -> Vec<u8> {
+    zksync_protobuf::encode(&gossip::VerifHandshake { session_id, genesis, is_static, build_version: None })
+}
+
+/// Encoded consensus handshake message (for adversarial peers written in the harness).
+pub fn encode_consensus_handshake(session_id: validator::Signed<node::SessionId>, genesis: validator::GenesisHash) -> Vec<u8> {
+    zksync_protobuf::encode(&consensus::VerifHandshake { session_id, genesis })
+}
+
+// ------------------------------------------------------------------------------------------------
+// mux
+
+pub type CapabilityId = u64;
+
+#[derive(Debug, Clone, Copy)]
+pub struct MuxConfig {
+    pub read_frame_size: u64,
+    pub read_buffer_size: u64,
+    pub read_frame_count: u64,
+    pub write_frame_size: u64,
+}
+
+/// Queue of transient streams of one capability (one side).
+#[derive(Clone)]
+pub struct StreamQueue(Arc<mux::StreamQueue>);
+
+impl StreamQueue {
+    pub fn new(ctx: &ctx::Ctx, max_streams: u32, rate: limiter::Rate) -> Self {
+        Self(mux::StreamQueue::new(ctx, max_streams, rate))
+    }
+    /// Opens (client side) / accepts (server side) the next transient stream.
+    pub async fn open(&self, ctx: &ctx::Ctx) -> ctx::OrCanceled<TransientStream> {
+        let s = self.0.open(ctx).await?;
+        Ok(TransientStream { read: s.read, write: s.write })
+    }
+}
+
+/// A transient stream; dropping it closes it.
+pub struct TransientStream {
+    read: mux::ReadStream,
+    write: mux::WriteStream,
+}
+
+impl TransientStream {
+    /// Reads up to `n` bytes; fewer are returned only at end of stream.
+    pub async fn read_exact(&mut self, ctx: &ctx::Ctx, n: usize) -> anyhow::Result<Vec<u8>> {
+        let mut buf = noise::bytes::Buffer::new(n);
+        self.read.read_exact(ctx, &mut buf).await?;
+        Ok(buf.as_slice().to_vec())
+    }
+    pub async fn write_all(&mut self, ctx: &ctx::Ctx, data: &[u8]) -> anyhow::Result<()> {
+        self.write.write_all(ctx, data).await
+    }
+    pub async fn flush(&mut self, ctx: &ctx::Ctx) -> anyhow::Result<()> {
+        self.write.flush(ctx).await
+    }
+    /// Closes the write half only (the peer sees end of stream), keeping the read half.
+    pub fn close_write(self) -> TransientReadHalf {
+        drop(self.write);
+        TransientReadHalf(self.read)
+    }
+}
+
+pub struct TransientReadHalf(mux::ReadStream);
+
+impl TransientReadHalf {
+    pub async fn read_exact(&mut self, ctx: &ctx::Ctx, n: usize) -> anyhow::Result<Vec<u8>> {
+        let mut buf = noise::bytes::Buffer::new(n);
+        self.0.read_exact(ctx, &mut buf).await?;
+        Ok(buf.as_slice().to_vec())
+    }
+}
+
+/// Runs a multiplexer over `transport`. `accept`/`connect` as in `mux::Mux`.
+pub async fn run_mux<S: io::AsyncRead + io::AsyncWrite + Send>(
+    ctx: &ctx::Ctx,
+    cfg: MuxConfig,
+    accept: BTreeMap<CapabilityId, StreamQueue>,
+    connect: BTreeMap<CapabilityId, StreamQueue>,
+    transport: S,
+) -> Result<(), String> {
+    let m = mux::Mux {
+        cfg: Arc::new(mux::Config {
+            read_frame_size: cfg.read_frame_size,
+            read_buffer_size: cfg.read_buffer_size,
+            read_frame_count: cfg.read_frame_count,
+            write_frame_size: cfg.write_frame_size,
+        }),
+        accept: accept.into_iter().map(|(k, v)| (k, v.0)).collect(),
+        connect: connect.into_iter().map(|(k, v)| (k, v.0)).collect(),
+    };
+    m.run(ctx, transport).await.map_err(|e| format!("{e:#}"))
+}
+
+/// Encoded mux handshake (for raw peers written in the harness).
+pub fn encode_mux_handshake(accept: &[(CapabilityId, u32)], connect: &[(CapabilityId, u32)]) -> Vec<u8> {
+    mux::verif_encode_handshake(accept, connect)
+}
+
+// ------------------------------------------------------------------------------------------------
+// rpc
+
+/// Called by the consensus RPC server for every request it starts serving.
+#[async_trait::async_trait]
+pub trait ConsensusProbe: Send + Sync {
+    async fn on_request(&self, ctx: &ctx::Ctx, msg: validator::Signed<validator::ConsensusMsg>);
+    fn max_req_size(&self) -> usize;
+}
+
+struct ProbeHandler<'a>(&'a dyn ConsensusProbe);
+
+#[async_trait::async_trait]
+impl rpc::Handler<rpc::consensus::Rpc> for ProbeHandler<'_> {
+    fn max_req_size(&self) -> usize {
+        self.0.max_req_size()
+    }
+    async fn handle(&self, ctx: &ctx::Ctx, req: rpc::consensus::Req) -> anyhow::Result<rpc::consensus::Resp> {
+        self.0.on_request(ctx, req.0).await;
+        Ok(rpc::consensus::Resp)
+    }
+}
+
+pub const CONSENSUS_INFLIGHT: u32 = <rpc::consensus::Rpc as rpc::Rpc>::INFLIGHT;
+pub const PING_RATE: limiter::Rate = rpc::ping::RATE;
+pub const CAP_CONSENSUS: CapabilityId = rpc::Capability::Consensus as CapabilityId;
+pub const CAP_PING: CapabilityId = rpc::Capability::Ping as CapabilityId;
+
+pub struct ConsensusClient(rpc::Client<rpc::consensus::Rpc>);
+
+impl ConsensusClient {
+    pub fn new(ctx: &ctx::Ctx, rate: limiter::Rate) -> Self {
+        Self(rpc::Client::new(ctx, rate))
+    }
+    pub async fn call(&self, ctx: &ctx::Ctx, msg: validator::Signed<validator::ConsensusMsg>) -> Result<(), String> {
+        self.0.call(ctx, &rpc::consensus::Req(msg), zksync_protobuf::kB).await.map(|_| ()).map_err(|e| format!("{e:?}"))
+    }
+}
+
+pub struct PingClient(rpc::Client<rpc::ping::Rpc>);
+
+impl PingClient {
+    pub fn new(ctx: &ctx::Ctx, rate: limiter::Rate) -> Self {
+        Self(rpc::Client::new(ctx, rate))
+    }
+    pub async fn call(&self, ctx: &ctx::Ctx, data: [u8; 32]) -> Result<[u8; 32], String> {
+        self.0.call(ctx, &rpc::ping::Req(data), zksync_protobuf::kB).await.map(|r| r.0).map_err(|e| format!("{e:?}"))
+    }
+}
+
+/// Runs an RPC service with a ping server and (optionally) a consensus server over `transport`.
+pub async fn run_rpc_server<S: io::AsyncRead + io::AsyncWrite + Send>(
+    ctx: &ctx::Ctx,
+    transport: S,
+    consensus: Option<(&dyn ConsensusProbe, limiter::Rate)>,
+) -> Result<(), String> {
+    let mut service = rpc::Service::new().add_server(ctx, rpc::ping::Server, rpc::ping::RATE);
+    if let Some((probe, rate)) = consensus {
+        service = service.add_server(ctx, ProbeHandler(probe), rate);
+    }
+    service.run(ctx, transport).await.map_err(|e| format!("{e:#}"))
+}
+
+/// Runs an RPC service with the given clients over `transport`.
+pub async fn run_rpc_client<S: io::AsyncRead + io::AsyncWrite + Send>(
+    ctx: &ctx::Ctx,
+    transport: S,
+    consensus: Option<&ConsensusClient>,
+    ping: Option<&PingClient>,
+) -> Result<(), String> {
+    let mut service = rpc::Service::new();
+    if let Some(c) = consensus {
+        service = service.add_client(&c.0);
+    }
+    if let Some(c) = ping {
+        service = service.add_client(&c.0);
+    }
+    service.run(ctx, transport).await.map_err(|e| format!("{e:#}"))
+}
+
+// ------------------------------------------------------------------------------------------------
+// pool, address book, fetch queue
+
+pub struct PoolWatch<K, V>(pool::PoolWatch<K, V>);
+
+impl<K: std::hash::Hash + Eq + Clone, V: Clone> PoolWatch<K, V> {
+    pub fn new(allowed: HashSet<K>, extra_limit: usize) -> Self {
+        Self(pool::PoolWatch::new(allowed, extra_limit))
+    }
+    pub async fn insert(&self, k: K, v: V) -> Result<(), String> {
+        self.0.insert(k, v).await.map_err(|e| format!("{e:#}"))
+    }
+    pub async fn remove(&self, k: &K) {
+        self.0.remove(k).await
+    }
+    pub fn current(&self) -> Vec<(K, V)> {
+        self.0.current().into_iter().collect()
+    }
+}
+
+#[derive(Default)]
+pub struct ValidatorAddrsWatch(gossip::VerifValidatorAddrsWatch);
+
+impl ValidatorAddrsWatch {
+    pub async fn update(&self, validators: &validator::Schedule, data: &[Arc<validator::Signed<validator::NetAddress>>]) -> Result<(), String> {
+        self.0.update(validators, data).await.map_err(|e| format!("{e:#}"))
+    }
+    pub async fn announce(&self, key: &validator::SecretKey, addr: std::net::SocketAddr, timestamp: zksync_concurrency::time::Utc) {
+        self.0.announce(key, addr, timestamp).await
+    }
+    pub fn current(&self) -> Vec<(validator::PublicKey, Arc<validator::Signed<validator::NetAddress>>)> {
+        self.0.current().into_iter().collect()
+    }
+}
+
+#[derive(Default)]
+pub struct FetchQueue(gossip::VerifFetchQueue);
+
+/// Handle of an accepted block request: `done()` completes it, dropping it fails it.
+pub struct AcceptedBlock {
+    pub number: validator::BlockNumber,
+    send: zksync_concurrency::oneshot::Sender<()>,
+}
+
+impl AcceptedBlock {
+    pub fn done(self) {
+        let _ = self.send.send(());
+    }
+}
+
+impl FetchQueue {
+    pub async fn request(&self, ctx: &ctx::Ctx, number: validator::BlockNumber) -> ctx::OrCanceled<()> {
+        self.0.request(ctx, gossip::VerifRequestItem::Block(number)).await
+    }
+    pub async fn accept_block(&self, ctx: &ctx::Ctx, available: &mut sync::watch::Receiver<BlockStoreState>) -> ctx::OrCanceled<AcceptedBlock> {
+        let (number, send) = self.0.accept_block(ctx, available).await?;
+        Ok(AcceptedBlock { number, send })
+    }
+    pub fn current_blocks(&self) -> Vec<u64> {
+        self.0.current_blocks()
+    }
+}
+
+// ------------------------------------------------------------------------------------------------
+// codecs of crate-private wire messages: decode -> (debug string, canonical re-encoding)
+
+pub const WIRE_KINDS: &[&str] = &[
+    "rpc.consensus.Req", "rpc.consensus.Resp", "rpc.get_block.Req", "rpc.get_block.Resp", "rpc.ping.Req", "rpc.ping.Resp",
+    "rpc.push_block_store_state.Req", "rpc.push_tx.Req", "rpc.push_validator_addrs.Req", "gossip.Handshake", "consensus.Handshake",
+    "preface.Encryption", "preface.Endpoint", "mux.Handshake",
+];
+
+fn dec<T: ProtoFmt + std::fmt::Debug>(bytes: &[u8]) -> Result<(String, Vec<u8>), String> {
+    let v: T = zksync_protobuf::decode(bytes).map_err(|e| format!("{e:#}"))?;
+    Ok((format!("{v:?}"), zksync_protobuf::encode(&v)))
+}
+
+/// Decodes `bytes` as the wire message `kind`; returns its debug representation and its re-encoding.
+pub fn wire_decode(kind: &str, bytes: &[u8]) -> Result<(String, Vec<u8>), String> {
+    match kind {
+        "rpc.consensus.Req" => dec::<rpc::consensus::Req>(bytes),
+        "rpc.consensus.Resp" => dec::<rpc::consensus::Resp>(bytes),
+        "rpc.get_block.Req" => dec::<rpc::get_block::Req>(bytes),
+        "rpc.get_block.Resp" => dec::<rpc::get_block::Resp>(bytes),
+        "rpc.ping.Req" => dec::<rpc::ping::Req>(bytes),
+        "rpc.ping.Resp" => dec::<rpc::ping::Resp>(bytes),
+        "rpc.push_block_store_state.Req" => dec::<rpc::push_block_store_state::Req>(bytes),
+        "rpc.push_tx.Req" => dec::<rpc::push_tx::Req>(bytes),
+        "rpc.push_validator_addrs.Req" => dec::<rpc::push_validator_addrs::Req>(bytes),
+        "gossip.Handshake" => dec::<gossip::VerifHandshake>(bytes),
+        "consensus.Handshake" => dec::<consensus::VerifHandshake>(bytes),
+        "preface.Encryption" => dec::<preface::Encryption>(bytes),
+        "preface.Endpoint" => dec::<preface::Endpoint>(bytes),
+        "mux.Handshake" => mux::verif_decode_handshake(bytes),
+        _ => Err("unknown kind".into()),
+    }
+}
+
+/// Descriptor of the protobuf message behind `kind`.
+pub fn wire_descriptor(kind: &str) -> Option<prost_reflect::MessageDescriptor> {
+    use prost_reflect::ReflectMessage as _;
+    fn d<T: ProtoFmt>() -> prost_reflect::MessageDescriptor {
+        T::Proto::default().descriptor()
+    }
+    Some(match kind {
+        "rpc.consensus.Req" => d::<rpc::consensus::Req>(),
+        "rpc.consensus.Resp" => d::<rpc::consensus::Resp>(),
+        "rpc.get_block.Req" => d::<rpc::get_block::Req>(),
+        "rpc.get_block.Resp" => d::<rpc::get_block::Resp>(),
+        "rpc.ping.Req" => d::<rpc::ping::Req>(),
+        "rpc.ping.Resp" => d::<rpc::ping::Resp>(),
+        "rpc.push_block_store_state.Req" => d::<rpc::push_block_store_state::Req>(),
+        "rpc.push_tx.Req" => d::<rpc::push_tx::Req>(),
+        "rpc.push_validator_addrs.Req" => d::<rpc::push_validator_addrs::Req>(),
+        "gossip.Handshake" => d::<gossip::VerifHandshake>(),
+        "consensus.Handshake" => d::<consensus::VerifHandshake>(),
+        "preface.Encryption" => d::<preface::Encryption>(),
+        "preface.Endpoint" => d::<preface::Endpoint>(),
+        "mux.Handshake" => mux::verif_handshake_descriptor(),
+        _ => return None,
+    })
+}
+
+/// Encoders of the crate-private wire messages from their public constituents.
+pub mod wire_encode {
+    use super::*;
+    pub fn consensus_req(m: validator::Signed<validator::ConsensusMsg>) -> Vec<u8> {
+        zksync_protobuf::encode(&rpc::consensus::Req(m))
+    }
+    pub fn get_block_req(n: validator::BlockNumber) -> Vec<u8> {
+        zksync_protobuf::encode(&rpc::get_block::Req(n))
+    }
+    pub fn get_block_resp(b: Option<validator::Block>) -> Vec<u8> {
+        zksync_protobuf::encode(&rpc::get_block::Resp(b))
+    }
+    pub fn ping_req(d: [u8; 32]) -> Vec<u8> {
+        zksync_protobuf::encode(&rpc::ping::Req(d))
+    }
+    pub fn push_block_store_state_req(state: BlockStoreState) -> Vec<u8> {
+        zksync_protobuf::encode(&rpc::push_block_store_state::Req { state })
+    }
+    pub fn push_tx_req(tx: zksync_consensus_engine::Transaction) -> Vec<u8> {
+        zksync_protobuf::encode(&rpc::push_tx::Req(tx))
+    }
+    pub fn push_validator_addrs_req(v: Vec<Arc<validator::Signed<validator::NetAddress>>>) -> Vec<u8> {
+        zksync_protobuf::encode(&rpc::push_validator_addrs::Req(v))
+    }
+}
